@@ -102,6 +102,7 @@ type FuncVC struct {
 	entryState *State
 	tier string
 	modelVars []modelVar
+	replayNodes []*rNode
 	topFrame *Frame
 }
 
